@@ -191,7 +191,10 @@ CStep(E, me, c, g, f, st) ==
                   IF shared THEN [g EXCEPT !.race = @ \/ (g.window \ {me}) # {}, !.window = @ \cup {me}] ELSE g)
     [] c.pc = "mkspan" ->                              \* StartSpan + start tags + Inject + `span = ...`
          LET id == Len(g.spans) + 1
-             sp == NewSpan(id, <<me, c.k>>, IF c.sc.ctx = "span" THEN "caller" ELSE "root")
+             \* as-built D52: StartSpanFromContextWithTracer appends ChildOf(parent) into the same shared array; a caller
+             \* overlapping with another one may read the other's reference (observed on the real code: 24 of 3200 spans)
+             mixed == (g.window \ {me}) # {}
+             sp == NewSpan(id, <<me, c.k>>, IF mixed THEN "other" ELSE IF c.sc.ctx = "span" THEN "caller" ELSE "root")
              g1 == [g EXCEPT !.spans = Append(@, sp), !.window = @ \ {me}]
          IN  SetVar([c EXCEPT !.pc = "wparams", !.i = @ - 1, !.hdr = {id}], g1, c.wraps[c.i], id)
     [] c.pc = "uparams" ->                             \* the caller's params writer
